@@ -4,7 +4,7 @@
    PSITableID_hasCRC32, computeCRC32 and updateCRC32 are re-translated from the source on every run;
    crc32_mpeg2 is the bitwise reference of Spec/CrcSpec.v (C10 proves the translated code equal to it). *)
 From Coq Require Import ZArith List.
-Require Import Base.Bits Base.Iter Base.Wr Gen.Consts Gen.Types Gen.Preds Model.Packet Model.Psi.
+Require Import Base.Bits Base.Iter Base.Wr Gen.Consts Gen.Types Gen.Preds Model.Packet Model.Desc Model.Psi.
 Require Import Spec.CrcSpec Spec.PsiSpec Proofs.PsiProofs Proofs.PsiDeps.
 Import ListNotations.
 Open Scope Z_scope.
@@ -44,6 +44,46 @@ Theorem C09_decoded_tables_have_crc : forall tid,
   PSITableID_hasCRC32 tid = true.
 Proof. exact decoded_has_crc. Qed.
 Print Assumptions C09_decoded_tables_have_crc.
+
+(* C09_mux_pat: every PAT section writePSISection emits (any flags, identifiers, version, section numbers; 0..253
+   programs = the 1021-byte limit; Header.SectionLength non-zero as the muxer sets it for a non-empty PAT) is
+   pre ++ be32 (CRC-32/MPEG-2 of pre) -- so the reference decoder's gate accepts it --, starts with table_id 0, and
+   its 12-bit section_length field equals the number of bytes written after the field.  By induction over the
+   program list; no premise about other models. *)
+Theorem C09_mux_pat : forall c h sh d pat,
+  PSISectionHeader_TableID h = 0 -> PSISectionHeader_SectionLength h > 0 ->
+  PSISectionSyntaxData_PAT d = Some pat -> (length (PATData_Programs pat) <= 253)%nat ->
+  exists its pre, enc_psi_section (mk_section c h sh d) = Ok its /\
+    bytes_of_items its = pre ++ CrcSpec.be32 (crc32_mpeg2 pre) /\
+    spec_crc_ok (bytes_of_items its) /\
+    (3 <= length pre)%nat /\ nth 0 pre 0 = 0 /\
+    bitsf (firstn 3 pre) 12 12 = Z.of_nat (length (bytes_of_items its)) - 3.
+Proof. exact mux_pat. Qed.
+Print Assumptions C09_mux_pat.
+
+(* C09_mux_pmt: the same for every PMT section the writer accepts, RELATIVE to the descriptor length statement of
+   C14, which enters as an explicit premise (desc_ok is C14's domain of descriptor lists): what
+   writeDescriptorsWithLength emits for a list in that domain is whole bytes, 2 + calcDescriptorsLength of them.
+   pmt_body_len is the unwrapped sum the length calculator computes; the premise `+ 9 <= 4095` is the 12-bit
+   section_length (the standard's limit is 1021). *)
+Theorem C09_mux_pmt : forall (desc_ok : list Descriptor -> Prop),
+  (forall ds its, desc_ok ds -> Desc.enc_descriptors_with_length ds = Ok its ->
+     items_bytes_ok its /\ 0 <= Desc.calc_descriptors_length ds /\
+     length (items_bits its) = (8 * Z.to_nat (2 + Desc.calc_descriptors_length ds))%nat) ->
+  (forall ds, 0 <= Desc.calc_descriptors_length ds) ->
+  forall c h sh d pmt its,
+  PSISectionHeader_TableID h = 2 -> PSISectionHeader_SectionLength h > 0 ->
+  PSISectionSyntaxData_PMT d = Some pmt ->
+  desc_ok (PMTData_ProgramDescriptors pmt) ->
+  Forall (fun es => desc_ok (PMTElementaryStream_ElementaryStreamDescriptors es)) (PMTData_ElementaryStreams pmt) ->
+  pmt_body_len pmt + 9 <= 4095 ->
+  enc_psi_section (mk_section c h sh d) = Ok its ->
+  exists pre, bytes_of_items its = pre ++ CrcSpec.be32 (crc32_mpeg2 pre) /\
+    spec_crc_ok (bytes_of_items its) /\
+    (3 <= length pre)%nat /\ nth 0 pre 0 = 2 /\
+    bitsf (firstn 3 pre) 12 12 = Z.of_nat (length (bytes_of_items its)) - 3.
+Proof. exact mux_pmt. Qed.
+Print Assumptions C09_mux_pmt.
 
 (* non-vacuity: a PAT with two programs is written, parsed back and delivered; a single flipped bit in
    the program loop makes parsePSIData fail *)
